@@ -44,7 +44,8 @@ def shape_edges(kind, size):
 
 def big_size(prng):
     """Unusually large motif / orbit size (numeric edge cases live there: e.g. s * (1.0 / s) < 1 first at s = 49)."""
-    return prng.choice((prng.randrange(7, 33), prng.randrange(33, 140), prng.choice((49, 64, 98, 100, 103, 107, 128, 161, 187))))
+    return prng.choice((prng.randrange(7, 33), prng.randrange(33, 140), prng.choice((49, 64, 98, 100, 103, 107, 128, 161, 187)),
+                        interesting.size(prng, 7, 1025)))     # incl. 255..258 (small-int cache), 511..513, 1023..1025
 
 
 def pick_fast_motif(prng, shape_focus=False):
@@ -197,7 +198,21 @@ def gen_scenario(prng, tier, index, focus):
                 cols.append(_distribute(prng, count * osz, n, prng.choice(("all", "few", "one"))))
         sc["motifs"] = motifs
     share = None
-    if n >= 4 and prng.random() < 0.12:
+    if algo in ("fast", "network") and prng.random() < 0.10:
+        # RAW library builders: the generator is handed the library's own clique_motif / cycle_motif / diamond_motif OBJECTS
+        # (as the suite and every user does), not instrumented wrappers - anything keyed on the identity of the callable
+        # only shows here.  No callback log exists then; the oracle is structural (evaluate_raw).
+        ntop = prng.randrange(1, 4)
+        topos, cols = [], []
+        for k in range(ntop):
+            kind = prng.choice(("lib_clique", "lib_clique", "lib_cycle", "lib_diamond"))
+            size = 4 if kind == "lib_diamond" else prng.choice((2, 2, 3, 3, 4, 5)) if kind == "lib_clique" else prng.randrange(3, 7)
+            topos.append({"kind": kind, "size": size, "name": f"{prng.choice(('2-clique', '3-clique', 'cycle', 't'))}#{k}"})
+            count = prng.randrange(0, 6 if not big else 12)
+            cols.append(_distribute(prng, count * size, n, prng.choice(("all", "few"))))
+        sc["topos"] = topos
+        sc["raw_builders"] = True
+    elif n >= 4 and prng.random() < 0.12:
         # two types share the SAME build-callable object (as the suite itself does with clique_motif); they are told
         # apart by vertex support: the first type's stubs live on the lower half of the vertices, the second's on the upper
         half = n // 2
@@ -242,6 +257,8 @@ def gen_scenario(prng, tier, index, focus):
     if variant == "faults":
         sc["repeat"] = 2
         kind = prng.choice(("callback_raise", "abort_at_decision", "both", "abort_at_line", "abort_at_line"))
+        if sc.get("raw_builders") and kind in ("callback_raise", "both"):
+            kind = "abort_at_decision"              # no wrapper to fail in
         if kind in ("callback_raise", "both"):
             sc["faults"].append({"kind": "callback_raise", "at": prng.randrange(0, 6)})
         if kind in ("abort_at_decision", "both"):
@@ -250,6 +267,13 @@ def gen_scenario(prng, tier, index, focus):
             sc["faults"].append({"kind": "abort_at_line", "at": prng.choice((prng.randrange(0, 40), prng.randrange(0, 400)))})
     elif prng.random() < 0.25:
         sc["repeat"] = 2  # plain reuse of one generator object
+    if sc["repeat"] == 2 and n >= 2 and not sc.get("shared_builder") and prng.random() < 0.5:
+        # the second generation on the same generator object gets DIFFERENT content: the rows permuted (column sums, hence
+        # handshake consistency, unchanged) - half of the time by editing the caller's list object in place.  A result that
+        # still reflects the first sequence (anything memoised per object) only shows then.
+        perm = list(range(n))
+        prng.shuffle(perm)
+        sc["round2"] = {"perm": perm, "in_place": prng.random() < 0.5}
     return sc
 
 
@@ -346,7 +370,7 @@ def build_params(sc, rec):
                 f = diamond_motif
             else:
                 f = _shape_fn(shape_edges(m["kind"], m["size"]), "list")
-            fns.append(rec.build(k, f))
+            fns.append(f if sc.get("raw_builders") else rec.build(k, f))
         sh = sc.get("shared_builder")
         if sh:
             i, j = sh["types"]
@@ -441,7 +465,12 @@ def run_generation(sc, ctx, on_result):
         return
     faults = list(sc.get("faults", []))
     faulted = False
+    sc0, held = sc, None
     for rnd in range(sc.get("repeat", 1)):
+        sc = sc0
+        if rnd > 0 and sc0.get("round2"):
+            sc = dict(sc0, jds=[sc0["jds"][i] for i in sc0["round2"]["perm"]])
+            ctx.probe("second_generation_with_permuted_rows")
         rec.reset()
         abort_at = None
         abort_line = None
@@ -456,6 +485,12 @@ def run_generation(sc, ctx, on_result):
         else:
             rec.fail_at = None
         jds = make_jds(sc)
+        if sc0.get("round2", {}).get("in_place"):
+            if held is None:
+                held = jds
+            else:
+                held[:] = jds               # the caller's own list object, edited in place
+                jds = held
         before = [tuple(r) for r in jds]
         types_before = [type(r) for r in jds]
         st, val = ctx.call(src, algo.random_clustered_graph, jds, abort_at=abort_at, abort_at_line=abort_line,
@@ -463,9 +498,131 @@ def run_generation(sc, ctx, on_result):
         if st == "fault":
             ctx.fault("callback_raise")
         rec.fail_at = None
-        on_result(rnd, st, val, rec, faulted, jds=jds, before=before, types_before=types_before)
+        on_result(rnd, st, val, rec, faulted, jds=jds, before=before, types_before=types_before, scr=sc)
         if st in ("fault", "abort"):
             faulted = True
+
+
+LIB = {"lib_clique": clique_motif, "lib_cycle": cycle_motif, "lib_diamond": diamond_motif}
+
+
+def evaluate_raw(sc, ctx, st, val, P, reuse, jds, before, types_before):
+    """Oracle for raw-builder scenarios (no callback log): the output alone must be explainable as `count` instances
+    per topology, each equal to builder(vs) for some vertex tuple vs, the vs of a topology using every vertex exactly
+    jds[v][k] times, every instance under its own motif id and its topology's name."""
+    C01 = P == "C01"
+    tag = " (generation after a fault on the same object)" if reuse else ""
+    if st == "raised":
+        ctx.violate(f"{P}.raised", f"generator raised {describe_exc(val)} with the library's own builders{tag}")
+        return 0
+    if st != "ok":
+        return 0
+    n = sc["n"]
+    lay = layout(sc)
+    tmpl = [norm_edges(LIB[m["kind"]](list(range(m["size"])))) for m in sc["topos"]]
+    name_to = {m["name"]: k for k, m in enumerate(sc["topos"])}
+    try:
+        obs = observe(sc, val)
+    except Exception as e:
+        ctx.violate(f"{P}.raised", f"result of type {type(val).__name__} is not the documented object: {describe_exc(e)}")
+        return 0
+    ctx.probe("raw_library_builders")
+    c_cols, c_groups = ("emitted", "emitted") if C01 else ("columns", "groups")
+    ctx.check(f"{P}.{c_cols}"); ctx.check(f"{P}.{c_groups}")
+    if obs["kind"] == "list":
+        edges, tops, ids = obs["edges"], obs["tops"], obs["ids"]
+        if not (len(edges) == len(tops) == len(ids)):
+            ctx.violate(f"{P}.{c_cols}", f"column lengths differ: {len(edges)} edges, {len(tops)} names, {len(ids)} motif ids{tag}")
+            return len(edges)
+        groups = {}
+        try:
+            for e, t, i in zip(edges, tops, ids):
+                groups.setdefault(i, []).append((tuple(e), t))
+        except TypeError as ex:
+            ctx.violate(f"{P}.{c_groups}", f"unusable entry: {ex}{tag}")
+            return len(edges)
+        per = Counter()
+        use = [Counter() for _ in sc["topos"]]
+        for gid, g in groups.items():
+            names = {t for _, t in g}
+            k = name_to.get(next(iter(names))) if len(names) == 1 else None
+            if k is None:
+                ctx.violate(f"{P}.{c_groups if C01 else 'names'}", f"entries sharing motif id {gid!r} carry the names {sorted(map(str, names))}: "
+                                                                   f"not one instance of one topology{tag}")
+                return len(edges)
+            m, tp = sc["topos"][k], tmpl[k]
+            if len(g) != len(tp):
+                ctx.violate(f"{P}.{c_groups}", f"{len(g)} entries share motif id {gid!r} (topology {m['name']!r}); one instance of that "
+                                               f"topology has {len(tp)} edges - distinct instances share an id or an instance is split{tag}")
+                return len(edges)
+            vs = [None] * m["size"]
+            ok = True
+            for (a, b), (ia, ib) in zip((e for e, _ in g), tp):
+                for x, ix in ((a, ia), (b, ib)):
+                    if vs[ix] is None:
+                        vs[ix] = x
+                    elif vs[ix] != x:
+                        ok = False
+            if not ok or any(v is None for v in vs):
+                ctx.violate(f"{P}.{c_groups}", f"the entries under motif id {gid!r} ({[e for e, _ in g][:6]}) are not what the "
+                                               f"{m['name']!r} builder returns for any {m['size']} vertices{tag}")
+                return len(edges)
+            per[k] += 1
+            for v in vs:
+                use[k][v] += 1
+        for k, l in enumerate(lay):
+            if not tmpl[k]:
+                continue
+            if C01:
+                ctx.check(f"{P}.calls"); ctx.check(f"{P}.conservation")
+            if per.get(k, 0) != l["count"]:
+                ctx.violate(f"{P}.calls" if C01 else f"{P}.groups", f"topology {k} ({sc['topos'][k]['name']!r}, size {sc['topos'][k]['size']}): "
+                            f"{per.get(k, 0)} motif instances emitted, {l['count']} required by the joint degree sequence{tag}")
+                return len(edges)
+            want = Counter({v: sc["jds"][v][k] for v in range(n) if sc["jds"][v][k]})
+            if C01 and use[k] != want:
+                ctx.violate(f"{P}.conservation", f"column {k}: stub slots occupied {sorted(use[k].items())[:8]} but joint degrees give "
+                                                 f"{sorted(want.items())[:8]}{tag}")
+                return len(edges)
+        if C01:
+            ctx.check(f"{P}.range"); ctx.check(f"{P}.jds")
+            bad = [x for e in edges for x in e if not (isinstance(x, Integral) and 0 <= x < n)]
+            if bad:
+                ctx.violate(f"{P}.range", f"vertex {bad[0]!r} outside 0..{n - 1}{tag}")
+            try:
+                carried = [tuple(r) for r in obs["jds"]]
+            except Exception:
+                carried = None
+            if carried != before:
+                ctx.violate(f"{P}.jds", f"joint degrees carried by the result differ from the input by value{tag}")
+        nres = len(edges)
+    else:
+        G = obs["G"]
+        groups = {}
+        for u, v, d in G.edges(data=True):
+            groups.setdefault(d.get(NetworkNames.MOTIF_IDS), []).append((u, v, d.get(NetworkNames.TOPOLOGY)))
+        for gid, g in groups.items():
+            names = {t for _, _, t in g}
+            k = name_to.get(next(iter(names))) if len(names) == 1 else None
+            if k is None or len(g) > len(tmpl[k]):
+                ctx.violate(f"{P}.{c_groups}", f"{len(g)} network edges share motif id {gid!r} with names {sorted(map(str, names))}: more than "
+                                               f"one instance of one topology{tag}")
+                return G.number_of_edges()
+        if C01:
+            ctx.check(f"{P}.jds")
+            if sorted(G.nodes()) != list(range(n)):
+                ctx.violate(f"{P}.jds", f"network has {G.number_of_nodes()} of {n} vertices{tag}")
+            else:
+                for v in range(n):
+                    jd = G.nodes[v].get(NetworkNames.JOINT_DEGREE)
+                    if jd is None or tuple(jd) != before[v]:
+                        ctx.violate(f"{P}.jds", f"vertex {v} carries joint degree {jd!r}, input {before[v]}{tag}")
+                        break
+        nres = G.number_of_edges()
+    if C01 and ([tuple(r) for r in jds] != before or [type(r) for r in jds] != types_before or len(jds) != n):
+        ctx.violate(f"{P}.jds", f"the caller's joint degree sequence was modified{tag}")
+    ctx.result(st, nres, sorted(per.items()) if obs["kind"] == "list" else len(groups))
+    return nres
 
 
 def multiset(xs):
